@@ -232,6 +232,59 @@ def _rand(args):
     return ev, {"cls": cls, "s": list(map(float, s)), "shape": [m, n], "gamma": gamma, "solver": solver}
 
 
+def _documented(args):
+    """the library's own documented inputs: Example 5.2 of Huang-Wang-Zhang (data_gen.small_test_Mat with its
+    published pseudoinverse) and matrices from data_gen.create_test_matrix (all options), through both solvers
+    with constructor DEFAULTS and with explicit settings; expectation = oracle pseudoinverse (complex adjoint)"""
+    tid, seed = args
+    from ..qlib import opinv, osvals
+    L = lib()
+    dg, Sv = L.data_gen, L.solver
+    rng = np.random.default_rng(seed)
+    ins = [("example-5.2", q_to_float(dg.small_test_Mat()))]
+    np.random.seed(seed)
+    ins.append(("create_test_matrix", q_to_float(dg.create_test_matrix(4, 3))))
+    ins.append(("create_test_matrix:rank", q_to_float(dg.create_test_matrix(5, 4, rank=2))))
+    ins.append(("create_test_matrix:cond", q_to_float(dg.create_test_matrix(4, 4, cond_number=50.0))))
+    ins.append(("create_sparse_quat_matrix", None))
+    ev = []
+    first = None
+    for name, A in ins:
+        if A is None:
+            try:
+                Sq = dg.create_sparse_quat_matrix(5, 4, density=0.6)
+                A = np.stack([Sq.real.toarray(), Sq.i.toarray(), Sq.j.toarray(), Sq.k.toarray()], axis=-1)
+            except Exception:
+                continue
+        sv = osvals(A)
+        r = int(np.sum(sv > 1e-10 * max(sv[0], 1e-300)))
+        smin = float(sv[r - 1]) if r else 1.0
+        P = opinv(A)
+        if name == "example-5.2":
+            Pdoc = q_to_float(dg.theoretical_pseudoinverse_example_5_2())
+            ev.append({"tid": tid, "ev": "Return", "tol_lg": 0, "compute_residuals": True, "iters": 0, "cls": "documented:example-5.2:published-pseudoinverse",
+                       "stopped_on_tol": False, "err_lg": lg(ofro(Pdoc - P)), "bound_lg": 0, "expect_converged": True, "conv_bound_lg": lg(1e-12),
+                       "finite": True, "sparse_same": True})
+        full = r == min(A.shape[:2])
+        for label, obj in (("damped:defaults", Sv.NewtonSchulzPseudoinverse()), ("cubic:defaults", Sv.HigherOrderNewtonSchulzPseudoinverse()),
+                           ("damped:gamma0.5", Sv.NewtonSchulzPseudoinverse(gamma=0.5, max_iter=300, tol=1e-9)),
+                           ("damped:noresiduals", Sv.NewtonSchulzPseudoinverse(gamma=1.0, max_iter=300, tol=1e-9, compute_residuals=False)),
+                           ("cubic:tol", Sv.HigherOrderNewtonSchulzPseudoinverse(max_iter=60, tol=1e-9))):
+            import contextlib
+            import io
+            with contextlib.redirect_stdout(io.StringIO()):
+                out = obj.compute(q_from_float(A))
+            X = q_to_float(np.asarray(out[0]))
+            fin = bool(np.all(np.isfinite(X)))
+            tol = float(getattr(obj, "tol", 1e-9) or 1e-9)
+            ev.append({"tid": tid, "ev": "Return", "tol_lg": lg(tol), "compute_residuals": True, "iters": 0,
+                       "cls": "documented:%s:%s" % (name, label), "stopped_on_tol": False,
+                       "err_lg": lg(ofro(X - P)) if fin else 100000, "bound_lg": 0,
+                       "expect_converged": bool(full), "conv_bound_lg": lg(max(tol, 1e-9) * 64 * max(1.0 / smin, 1.0 / (smin * smin)) + 1e-12),
+                       "finite": fin if full else True, "sparse_same": True})
+    return ev, {"cls": "documented", "s": [], "shape": [], "gamma": 1.0, "solver": "damped", "inputs": [n for n, _ in ins]}
+
+
 RETURN_CLAUSES = ("StopOnTolIsAccurate", "ConvergesToPinv", "Finite", "SparseSameAsDense")
 
 
@@ -278,6 +331,7 @@ def run(ctx, replay=None):
     outs = par.pmap(_case, jobs)
     nr = 200 if thorough else 32
     outs += par.pmap(_rand, [(100000 + i, ctx.seed * 101 + i, K) for i in range(nr)])
+    outs += par.pmap(_documented, [(200000 + i, ctx.seed * 7 + i) for i in range(4 if thorough else 2)], chunk=1)
     events = []
     meta = {}
     for ev, info in outs:
